@@ -234,9 +234,38 @@ def stroke_classify(contours, x, y, w, join, miterlimit, cap, dash, offset, band
                     inside = True
                 if d < join_r + band:
                     maybe = True
-        if dashed:
-            # dash ends inside segments carry caps too: covered by the `margin <= cap_len + band` widening above
-            pass
+        if dashed and cap != "butt" and any(d == 0 for d in dash[0::2]):
+            # a zero-length dash with round or square caps is a dot (SVG 1.1 §11.4: the dotted-line idiom "0 N"): the point is
+            # covered when it lies well inside the cap shape centred on the dash position
+            starts = []
+            acc = 0.0
+            for i, d in enumerate(dash):
+                if i % 2 == 0 and d == 0:
+                    starts.append(acc)
+                acc += d
+            for i in range(last):
+                ax, ay = pts[i]
+                bx, by = pts[(i + 1) % n]
+                l = math.hypot(bx - ax, by - ay)
+                if l == 0:
+                    continue
+                ux, uy = (bx - ax) / l, (by - ay) / l
+                for s0 in starts:
+                    # positions s on this segment with (s + offset) % total == s0
+                    k0 = math.ceil((cum[i] + offset - s0) / total)
+                    spos = s0 + k0 * total - offset
+                    while spos <= cum[i + 1]:
+                        if spos >= cum[i] and (closed or band < spos < length - band):
+                            cx, cy = ax + ux * (spos - cum[i]), ay + uy * (spos - cum[i])
+                            if cap == "round":
+                                if math.hypot(x - cx, y - cy) < half - band:
+                                    inside = True
+                            else:
+                                al = abs((x - cx) * ux + (y - cy) * uy)
+                                pe = abs((x - cx) * uy - (y - cy) * ux)
+                                if al < half - band and pe < half - band and min(spos - cum[i], cum[i + 1] - spos) > half:
+                                    inside = True
+                        spos += total
     if inside:
         return True
     if not maybe:
